@@ -3,7 +3,8 @@ From PFL Require Import Base.ListSet Base.Closure Spec.Enfa Model.Enfa.
 Import ListNotations.
 
 Section A.
-  Variable A : enfa.
+  Context {Q : Type} `{EqDec Q}.
+  Variable A : enfa Q.
 
   Lemma succs_In l q r : In r (succs A l q) <-> In (q, l, r) (e_delta A).
   Proof.
@@ -15,7 +16,7 @@ Section A.
   Qed.
 
   (* epsilon paths *)
-  Definition epath (S : list N) (r : N) : Prop := reach (succs A None) S r.
+  Definition epath (S : list Q) (r : Q) : Prop := reach (succs A None) S r.
 
   Lemma eclose_spec S r : In r (eclose A S) <-> epath S r.
   Proof.
